@@ -49,7 +49,6 @@ package gateway
 // A-CFG (assumed, not checked: configuration is not client input): predefined topic names are non-empty.
 //@ assumption [C24] A-CFG: predefined topic names in the gateway's configuration are non-empty (precondition cfgNamesOK of the SUBSCRIBE/UNSUBSCRIBE steps; a PUBLISH on a predefined ID is checked at run time instead)
 //@ assumption [C24] A-PAHO: paho's ControlPacket.Write serialises exactly the fields of the packet it is given
-//@ assumption [C24,C25] A-RECVLOOP: snReceiveLoop hands handleMqttSn exactly the packet ReadPacket returned (precondition decodable = postcondition decoded of ReadPacket)
 //@ pred cfgNamesOK(h *handler1) = forall c string, id uint16 :: nameDefined(h.predefinedTopics, c, id) ==> len(nameSpec(h.predefinedTopics, c, id)) > 0
 
 //@ func (*handler1).mqttSend
@@ -729,6 +728,9 @@ package gateway
 //@   opaquecalls
 //@   tags [C23]
 //@   requires [C13] h: h != nil && h.cfg != nil && h.state != nil && state(h) == 0 && bufWF(h)
+// what newHandler establishes (its contract) plus the configuration assumptions (A-CFG, RetryCount below the maximum of uint)
+//@   requires [C25] fresh_session: h.transactions != nil && storeInv(h.transactions) && topicSeq(h) && regTypes(h) && boundOnce(h) && txEntries(h) && pendInv(h) && connTx(h) &&
+//@      h.cfg.RetryCount < 0xFFFFFFFFFFFFFFFF && cfgNamesOK(h)
 //@   assigns *
 //@   at NewConnWithContext.1 before let broker = arg(1)
 //@   at Go.0 before let session = arg(0)
@@ -760,4 +762,58 @@ package gateway
 //@      deref(result.state) == 0 && len(result.pktBuffer) == 0 && !result.topicIDsUsedUp
 //@   ensures [C15] shares_only_the_configuration: result.cfg == cfg && result.predefinedTopics == predefinedTopics
 //@   ensures [C15,C25] establishes_the_session_invariant: storeInv(result.transactions) && topicSeq(result) && regTypes(result) && boundOnce(result) &&
-//@      txEntries(result) && bufWF(result) && connTx(result)
+//@      txEntries(result) && pendInv(result) && bufWF(result) && connTx(result)
+
+// ---- the two receive loops (C13, C24, C25) ----
+// One step per packet read; a read/decode error or a step's error ends the loop with that error (nil only for a
+// cancelled context), which ends the session (errgroup). The loop invariant is the session invariant that every
+// step preserves (so it also holds after steps of the other loop and of timers: A-ATOMIC); the packet handed to
+// handleMqttSn is the one ReadPacket returned, hence `decoded`.
+//@ pred sessInv(h *handler1) = hInv(h) && txWF(h) && h.group != nil && cfgNamesOK(h)
+//@ func (*handler1).snReceiveLoop
+//@   nopanic [C25]
+//@   requires [C25] inv: sessInv(h)
+//@   assigns *
+//@   loop 0 invariant [C25,C13,C24] inv: sessInv(h)
+//@   at handleMqttSn.0 after let stepErr = ret
+//@   ensures [C13] a_failed_step_ends_the_loop_with_its_error: bound(stepErr) ==> result == stepErr && result != nil
+//@ func (*handler1).mqttReceiveLoop
+//@   nopanic [C25]
+//@   requires [C25] inv: sessInv(h)
+//@   assigns *
+//@   loop 0 invariant [C25,C13] inv: sessInv(h)
+//@   at handleMqtt.0 after let stepErr = ret
+//@   ensures [C13] a_failed_step_ends_the_loop_with_its_error: bound(stepErr) ==> result == stepErr && result != nil
+//@   ensures [C13,C14] broker_close_is_never_a_clean_exit_of_a_connected_session: result == nil ==> !bound(stepErr)
+// the goroutines of the two loops: started by run once both connections exist
+//@ func (*handler1).run$4
+//@   nopanic [C25]
+//@   requires [C25] inv: sessInv(h)
+//@   assigns *
+//@ func (*handler1).run$5
+//@   nopanic [C25]
+//@   requires [C25] inv: sessInv(h)
+//@   assigns *
+
+// ---- from the accept loop to a running session (C15, C25) ----
+// ListenAndServe builds one handler per accepted connection (newHandler) and starts its run in a goroutine of its
+// own; the precondition of run (what newHandler establishes, plus the configuration assumptions) is an obligation
+// where that goroutine is started. Listener set-up and Accept are abstracted (`opaquecalls`).
+//@ pred gwCfgOK(gw *Gateway) = gw != nil && gw.cfg != nil && gw.cfg.RetryCount < 0xFFFFFFFFFFFFFFFF &&
+//@      (forall c string, id uint16 :: nameDefined(gw.cfg.PredefinedTopics, c, id) ==> len(nameSpec(gw.cfg.PredefinedTopics, c, id)) > 0)
+// listener construction: pion/dtls and pion/udp set-up, contract assumed (body not verified); nothing the
+// session contracts speak about is touched
+//@ func newDTLSListener
+//@   trusted
+//@ func newUDPListener
+//@   trusted
+//@ func (*Gateway).ListenAndServe
+//@   opaquecalls
+//@   requires [C25] cfg: gwCfgOK(gw)
+//@   assigns *
+//@   loop 0 invariant [C25] cfg: gwCfgOK(gw) && handlerCfg != nil && handlerCfg.RetryCount == gw.cfg.RetryCount
+//@ func (*Gateway).ListenAndServe$2
+//@   requires [C25] fresh_session: handler != nil && handler.cfg != nil && handler.state != nil && state(handler) == 0 && bufWF(handler) &&
+//@      handler.transactions != nil && storeInv(handler.transactions) && topicSeq(handler) && regTypes(handler) && boundOnce(handler) && txEntries(handler) &&
+//@      pendInv(handler) && connTx(handler) && handler.cfg.RetryCount < 0xFFFFFFFFFFFFFFFF && cfgNamesOK(handler)
+//@   assigns *
